@@ -205,6 +205,11 @@ func (h *header) decode(src []byte) (int, error) {
 	mtype := h.Type()
 	//mtype := MessageType(0)
 
+	// The fixed header is at least 2 bytes: type/flags and one remaining length byte.
+	if len(src) < 2 {
+		return total, fmt.Errorf("header/Decode: Insufficient buffer size. Expecting at least %d, got %d", 2, len(src))
+	}
+
 	h.mtypeflags = src[total : total+1]
 	//mtype := MessageType(src[total] >> 4)
 	if !h.Type().Valid() {
@@ -227,12 +232,18 @@ func (h *header) decode(src []byte) (int, error) {
 	total++
 
 	remlen, m := binary.Uvarint(src[total:])
-	total += m
-	h.remlen = int32(remlen)
 
-	if h.remlen > maxRemainingLength || remlen < 0 {
-		return total, fmt.Errorf("header/Decode: Remaining length (%d) out of bound (max %d, min 0)", h.remlen, maxRemainingLength)
+	// m == 0: the length field is incomplete, m < 0: it does not fit 64 bits,
+	// m > 4: it is longer than MQTT allows.
+	if m <= 0 || m > maxFixedHeaderLength-1 {
+		return total, fmt.Errorf("header/Decode: Malformed remaining length field")
 	}
+	total += m
+
+	if remlen > uint64(maxRemainingLength) {
+		return total, fmt.Errorf("header/Decode: Remaining length (%d) out of bound (max %d, min 0)", remlen, maxRemainingLength)
+	}
+	h.remlen = int32(remlen)
 
 	if int(h.remlen) > len(src[total:]) {
 		return total, fmt.Errorf("header/Decode: Remaining length (%d) is greater than remaining buffer (%d)", h.remlen, len(src[total:]))
